@@ -324,9 +324,25 @@ package queue
 //@   calls signal requires [C01:signal_only_after_commit] durable > at(P, durable)
 //@   ensures [C01:nil_implies_committed] result == nil ==> durable > old(durable)
 
-//@ func (*SQLiteStore).migrate
+//@ func readSchemaVersion
 //@   trusted
+//@ func writeSchemaVersion
+//@   trusted
+//@   modifies txPending
+//@   ensures txPending >= old(txPending)
+
+//@ func (*SQLiteStore).migrate$1
+//@   requires s != nil && conn != nil
+//@   modifies durable, txOpen, txPending
+//@   ensures [C01:rollback_unless_committed] (committed ==> durable == old(durable) && txOpen == old(txOpen) && txPending == old(txPending)) && (!committed ==> durable == old(durable) && txPending == 0 && !txOpen)
+
+//@ func (*SQLiteStore).migrate
+//@   requires s != nil && s.db != nil && !txOpen && txPending == 0
+//@   modifies durable, txOpen, txPending
+//@   loop 1 invariant [in_one_transaction] txOpen && durable == old(durable) && !committed
+//@   ensures [C01:schema_all_or_nothing] result != nil ==> durable == old(durable)
+//@   ensures [C01:no_transaction_left_open] !txOpen && txPending == 0
 //@ func (*SQLiteStore).init
-//@   requires s != nil && s.db != nil
-//@   modifies durable, walRequested, syncFullSet
+//@   requires s != nil && s.db != nil && !txOpen && txPending == 0
+//@   modifies durable, walRequested, syncFullSet, txOpen, txPending
 //@   ensures [C01:durability_pragmas_set_before_use] result == nil ==> walRequested && syncFullSet
